@@ -370,7 +370,8 @@ SPECIAL_SMILES = (
     'C[C@H](O)[C@H](Cl)[C@@H](C)O', 'C[C@H](O)[C@@H](Cl)[C@@H](C)O', '[2H][C@H](C)O', '[2H][C@@]([3H])(F)Cl', 'C[C@H](F)[C@@H](C)[18F]',
     '[13CH3][CH2][12CH3]', '[CH2+]C[CH2-]', '[O-]C(=O)C([O])=O', '[NH3+][C@@H](C)C([O-])=O', 'C[P+](C)(C)[CH-]C', 'C=[N+]=[N-]',
     '[CH2]C(C)(C)[CH2]', 'C1CC1[C@H](F)C1CC1', 'OC[C@@H](O)[C@H](O)[C@@H](O)CO', 'OC[C@@H](O)[C@@H](O)[C@@H](O)CO',
-    'C12=C3[C@]14C[C@]23C4', 'C12=C3[C@]14C[C@@]23C4',
+    'C12=C3[C@]14C[C@]23C4', 'C12=C3[C@]14C[C@@]23C4', 'C1CCCCCCC12CCCCCCC2', 'N1CCC2(CC1)CCNCC2', 'C1CC[Si]2(CC1)CCCCC2',
+    'C1CC2(C1)CCC2', 'C1CCC2(C1)CCCC2', 'C1CCC2(CC1)OCCO2', 'C1CC2(C1)CC1(C2)CCC1',
 )
 
 
